@@ -82,28 +82,22 @@ func run() error {
 }
 
 func formatFile(path string) error {
-	// Todo: we read the file more than once, its wasteful
-	f, err := os.Open(path)
+	// the file is read once: the safety check below and the formatter see the same bytes,
+	// and a read error is reported here instead of reaching the formatter
+	src, err := os.ReadFile(path)
 	if err != nil {
-		return fmt.Errorf("Failed to open path: %w", err)
-	}
-	original, _, err := bebop.ReadFile(f)
-	if err != nil {
-		f.Close()
 		return fmt.Errorf("Failed to read file: %w", err)
 	}
-	f.Close()
-	f, err = os.Open(path)
+	original, _, err := bebop.ReadFile(bytes.NewReader(src))
 	if err != nil {
-		return fmt.Errorf("Failed to open path: %w", err)
+		return fmt.Errorf("Failed to read file: %w", err)
 	}
 
 	out := bytes.NewBuffer([]byte{})
-	err = bebop.Format(f, out)
+	err = bebop.Format(bytes.NewReader(src), out)
 	if err != nil {
 		return fmt.Errorf("Failed to produce formatted file: %w", err)
 	}
-	f.Close()
 
 	if *writeInPlace {
 		// never replace a schema with text that does not mean the same
